@@ -175,7 +175,7 @@ def monStep (g : Graph) (defs : Nat → TaskDef) (ck : Checker) (dflt : Option (
     | none =>
       let sp := forgetSpec g a d
       let marks := match sp with | none => [] | some l => gh.1.marks.filter fun t => !l.contains t
-      ((⟨marks⟩, gh.2), Json.mkObj [("spec", specJ sp)])
+      ((⟨marks⟩, gh.2), Json.mkObj [("spec", specJ sp), ("closed", Json.bool (forgetSpecClosed g a d))])
   | some (.ignore names) =>
     match firstUnknown g names with
     | some n => (gh, Json.mkObj [("unknown", toJson n)])
@@ -188,6 +188,7 @@ def monStep (g : Graph) (defs : Nat → TaskDef) (ck : Checker) (dflt : Option (
     let soft := g.names.filter fun t => (g.setup t).any fun d => hard.contains d
     (gh, Json.mkObj [("ign_hard", ofNats (Driver.Status.sortNats hard.eraseDups)), ("ign_setup", ofNats soft),
                      ("marks", ofNats (Driver.Status.sortNats gh.1.marks.eraseDups)),
+                     ("closed", Json.bool (ignClosedB g defs hard)),
                      ("hard_deps", mkArr (g.names.map fun t => ofNats (hardDeps g defs t)))])
   | some (.reset names) =>
     match firstUnknown g names with
